@@ -281,6 +281,12 @@ class Path:
         t0 = time.time()
         r, m = self._check(z3.Not(p))
         dt = time.time() - t0
+        dump = _os.environ.get("PYVC_DUMP")
+        if dump and dump in name and r != z3.unsat:
+            from .smt import goal_smt2
+            fn = "/tmp/pyvc_dump_%d.smt2" % len(self.ver.results)
+            open(fn, "w").write(goal_smt2(self.pc, p))
+            print("   dumped", name, "->", fn)
         if r == z3.unsat:
             self.ver.record(Obligation(name, kind, "proved", path=list(self.taken), seconds=dt, where=where))
             self.assume(p)
